@@ -2459,7 +2459,7 @@ pub fn check_all(out: &RunOut) -> Vec<Violation> {
             check_c03(&ix, &mut v);
             check_c04(&ix, &mut v);
         }
-        "C16" => {
+        "C16" | "C16X" => {
             check_c16(&ix, &mut v);
         }
         "C07" | "C07X" => {
